@@ -25,15 +25,13 @@ def run_one(prop, name, apply_fn, checks=None, tier="quick", skip_tests=False):
             res["repo_tests_pass"] = t.returncode == 0 and b"100% tests passed" in t.stdout
             if not res["repo_tests_pass"]: res["tests_output"] = t.stdout.decode()[-600:]
         for c in (checks or [prop]):
-            env = dict(os.environ); env["VERIF_REPO"] = wt; env["VERIF_BUILD"] = bd
+            env = dict(os.environ); env["VERIF_REPO"] = wt; env["VERIF_BUILD"] = bd; env["VERIF_OUT"] = bd + "-out"
             t0 = time.time(); t = sh([os.path.join(VERIF, "check"), c, "--tier", tier], env=env, cwd=VERIF)
             out = t.stdout.decode()
             res.setdefault("checks", {})[c] = {"rc": t.returncode, "violation": "VIOLATION property=" in out, "secs": round(time.time() - t0, 1),
                                               "signatures": [l.strip()[11:] for l in out.splitlines() if l.strip().startswith("signature:")][:6]}
     finally:
-        sh(["git", "-C", REPO, "worktree", "remove", "--force", wt]); shutil.rmtree(bd, ignore_errors=True); shutil.rmtree(wt, ignore_errors=True)
-        # the check wrote evidence/replays for the mutated tree: restore the committed evidence
-        sh(["git", "-C", VERIF, "checkout", "--", "evidence"])
+        sh(["git", "-C", REPO, "worktree", "remove", "--force", wt]); shutil.rmtree(bd, ignore_errors=True); shutil.rmtree(bd + "-out", ignore_errors=True); shutil.rmtree(wt, ignore_errors=True)
     return res
 
 def own(m):
